@@ -94,6 +94,11 @@ pub fn compare(ctx: &Ctx, out: &mut Out, text: &str, gtext: &str, origin: &str) 
     let co = text.contains("#[coinductive]") || text.contains("#[auto]");
     let mut answers = vec![];
     for (name, choice) in solver_choices() {
+        if name == "recursive" && crate::ops::fp::growing_wrappers(text) >= 2 {
+            // F34 (C09's): two growing impls, the recursive solver does not return in practice
+            out.count("recursive_skipped_two_growing_impls");
+            return;
+        }
         if name == "recursive" && text.contains("if not") {
             // F18 (C09): the recursive solver does not return on negative cycles
             out.count("skipped_negative_clauses");
